@@ -80,9 +80,17 @@ class PageFeatureProcessor:
         # --- Logic from DocumentService.apply_pagination_borders ---
 
         # 1. First Page Logic
-        has_column_headers = (
-            document.rtf_column_header and len(document.rtf_column_header) > 0
-        )
+        # A header list may contain None placeholders ("no header for this
+        # section") and nested lists: only real headers count.
+        def _has_header(headers) -> bool:
+            if not headers:
+                return False
+            return any(
+                _has_header(h) if isinstance(h, (list, tuple)) else h is not None
+                for h in headers
+            )
+
+        has_column_headers = _has_header(document.rtf_column_header)
 
         # If first page, NO headers, apply PAGE border_first to top of body
         if (
